@@ -1,0 +1,65 @@
+//go:build verif
+
+package flows
+
+import (
+	"context"
+	"fmt"
+
+	"github.com/agglayer/aggkit/aggsender/config"
+	"github.com/agglayer/aggkit/aggsender/db"
+	"github.com/agglayer/aggkit/aggsender/query"
+	"github.com/agglayer/aggkit/aggsender/types"
+	"github.com/agglayer/aggkit/log"
+	aggkittypes "github.com/agglayer/aggkit/types"
+)
+
+// VerifNewAggchainProverFlow wires the aggchain-prover flow like the AggchainProofMode branch of
+// NewFlow, except that the collaborators NewFlow reaches over the network (prover client, L2 GER
+// reader, start block and optimistic mode read from L1 contracts) are supplied by the external
+// verification harness (/verif). Only compiled with -tags verif.
+func VerifNewAggchainProverFlow(
+	ctx context.Context,
+	cfg config.Config,
+	logger *log.Logger,
+	storage db.AggSenderStorage,
+	l1Client aggkittypes.BaseEthereumClienter,
+	l1InfoTreeSyncer types.L1InfoTreeSyncer,
+	l2Syncer types.L2BridgeSyncer,
+	rollupDataQuerier types.RollupDataQuerier,
+	aggchainProofClient types.AggchainProofClientInterface,
+	gerReader types.ChainGERReader,
+	startL2Block uint64,
+	optimisticModeQuerier types.OptimisticModeQuerier,
+	optimisticSigner types.OptimisticSigner,
+) (types.AggsenderFlow, error) {
+	signer, err := initializeSigner(ctx, cfg.AggsenderPrivateKey, logger)
+	if err != nil {
+		return nil, err
+	}
+	l1InfoTreeQuerier := query.NewL1InfoTreeDataQuerier(l1Client, l1InfoTreeSyncer)
+	lerQuerier, err := query.NewLERDataQuerier(
+		cfg.RollupManagerAddr, cfg.RollupCreationBlockL1, rollupDataQuerier)
+	if err != nil {
+		return nil, fmt.Errorf("error creating LER data querier: %w", err)
+	}
+	l2BridgeQuerier := query.NewBridgeDataQuerier(logger, l2Syncer, cfg.DelayBetweenRetries.Duration)
+	baseFlow := NewBaseFlow(
+		logger, l2BridgeQuerier, storage, l1InfoTreeQuerier, lerQuerier,
+		NewBaseFlowConfig(cfg.MaxCertSize, startL2Block, cfg.RequireNoFEPBlockGap),
+	)
+	return NewAggchainProverFlow(
+		logger,
+		NewAggchainProverFlowConfig(cfg.MaxL2BlockNumber),
+		baseFlow,
+		aggchainProofClient,
+		storage,
+		l1InfoTreeQuerier,
+		l2BridgeQuerier,
+		query.NewGERDataQuerier(l1InfoTreeQuerier, gerReader),
+		l1Client,
+		signer,
+		optimisticModeQuerier,
+		optimisticSigner,
+	), nil
+}
